@@ -79,6 +79,7 @@ class Peer:
         self.dead = False
         self.reply_done_at = {}       # request index -> virtual time the last byte is delivered
         self.undecodable = []
+        self.zero_quirk = False
 
     def on_frame(self, conn, frame, t_written=None):
         try:
@@ -112,8 +113,11 @@ class Peer:
             self.dead = True
             t_f = max(conn._s2c_t, self.loop._vtime + delay)
             self.fault_fired_at = t_f
+            # every third wrong id is exactly 0 - the one value old FindCoordinator v0 replies are forgiven for
+            zero = f.get("byte", 1) % 3 == 0 and corr != 0
+            self.zero_quirk = zero and key == 10 and ver == 0
             if k == "wrong_corr":
-                bad = RP.encode_response(key, ver, (corr + 1000) % 2 ** 31, _reply_body(key, ver, spec["marker"]))
+                bad = RP.encode_response(key, ver, 0 if zero else (corr + 1000) % 2 ** 31, _reply_body(key, ver, spec["marker"]))
                 conn.send_frame(bad, delay=delay, chunks=chunks)
             elif k == "dup":
                 self.dead = False
@@ -123,7 +127,7 @@ class Peer:
                 self.fault_fired_at = conn._s2c_t
                 self.dup_index = i
             elif k == "unsolicited":
-                extra = RP.encode_response(key, ver, (corr + 77777) % 2 ** 31, _reply_body(key, ver, 424242))
+                extra = RP.encode_response(key, ver, 0 if zero else (corr + 77777) % 2 ** 31, _reply_body(key, ver, 424242))
                 conn.send_frame(extra, delay=delay, chunks=chunks)
             elif k == "truncated_body":
                 cut = max(4, min(len(payload) - 1, f.get("byte", 5)))
@@ -151,7 +155,8 @@ async def _main(case, obs, loop, net):
     obs["peer"] = peer
     net.listen("peer", 9092, peer)
     timeout_ms = case["request_timeout_ms"]
-    conn = await create_conn("peer", 9092, request_timeout_ms=timeout_ms, max_idle_ms=None)
+    # with an idle limit the connection may be dropped while nothing is outstanding - never under a waiter
+    conn = await create_conn("peer", 9092, request_timeout_ms=timeout_ms, max_idle_ms=case.get("max_idle_ms"))
     obs["conn"] = conn
     if case.get("corr_start") is not None:
         if hasattr(conn, "_correlation_id"):
@@ -249,6 +254,9 @@ def execute(case):
     peer = obs["peer"]
     if peer.undecodable:
         out.fail("own_reply", "request_undecodable_by_reference", {"errors": peer.undecodable[:3]})
+    if peer.zero_quirk:
+        out.label("find_coordinator_v0_zero_id_quirk")      # tolerated by design (Kafka 0.8.2): not judged
+        return out
     reqs = case["requests"]
     ws = {w["i"]: w for w in obs["waiters"]}
     timeout = case["request_timeout_ms"] / 1000.0
@@ -343,6 +351,8 @@ def execute(case):
         out.label("fault_" + str(peer.fault_kind))
     if case.get("corr_start") is not None:
         out.label("corr_near_wrap")
+    if case.get("max_idle_ms") is not None:
+        out.label("idle_limit_set")
     for s in reqs:
         out.label("api_" + s["api"])
     out.info = {"outcomes": [("result" if "result" in w else "timeout" if w.get("timeout") else "cancelled" if w.get("cancelled")
@@ -373,7 +383,8 @@ def strategy():
                      "byte": draw(st.integers(0, 40))}
         return {"requests": reqs, "fault": fault, "request_timeout_ms": timeout_ms,
                 "chunks": draw(st.lists(st.sampled_from([0, 0, 1, 2, 3, 5, 9, 17, 64]), min_size=1, max_size=5)),
-                "corr_start": draw(st.sampled_from([None, None, 2 ** 31 - 2, 2 ** 31 - 4, 2 ** 31 - 8]))}
+                "corr_start": draw(st.sampled_from([None, None, 2 ** 31 - 2, 2 ** 31 - 4, 2 ** 31 - 8])),
+                "max_idle_ms": draw(st.sampled_from([None, None, None, 20, 60, 150, 400]))}
     return cases()
 
 
